@@ -87,6 +87,13 @@ def make_config(rng):
         met["ustar"] = series(0.2, 0.6)
     if fk in ("z0", "both"):
         met["z0"] = float(rng.uniform(0.01, 0.2))
+        zk = rng.random()
+        if zk < 0.15:      # open water, ice, sand: fractions of a millimetre
+            met["z0"] = float(10 ** rng.uniform(-5, -3))
+        elif zk < 0.3:     # tall forest under tall towers: metres
+            for tw_ in towers:
+                tw_["z_m"] = float(rng.uniform(12, 45))
+            met["z0"] = float(rng.uniform(2.05, 0.24 * min(tw_["z_m"] for tw_ in towers)))
     # keep the configuration valid: the roughness length derived from ustar must stay below every tower's height
     if "ustar" in met and "z0" not in met:
         import math as _m
@@ -105,6 +112,11 @@ def make_config(rng):
     if rng.random() < 0.5:
         n_eff = max([len(v) for v in met.values() if isinstance(v, list)] or [1])
         met["timestamps"] = [f"2024-06-{d + 1:02d}T12:00" for d in range(n_eff)]
+        tk_ = rng.random()
+        if tk_ < 0.2:      # record numbers counted from one
+            met["timestamps"] = [d + 1 for d in range(n_eff)]
+        elif tk_ < 0.4:    # integer labels that are a permutation of the positions / hours of the day
+            met["timestamps"] = [int(v) for v in rng.permutation(n_eff)] if rng.random() < 0.5 else [int(v) for v in rng.permutation(24)[:n_eff]]
     fp = bool(rng.random() < 0.6)
     sol = {"closure": closure, "precision": str(rng.choice(["single", "double"])), "footprint": fp,
            "surface_flux_shape": str(rng.choice(["diamond", "circle", "point"]))}
